@@ -6,8 +6,9 @@
    bind_c                  : CPython 3.12 Python/ceval.c  initialize_locals
                              (the algorithm inspect.Signature.bind re-implements)
 
-   Call shapes have no * / ** splats at the call site (pytype is deliberately lenient there:
-   args.starargs / args.starstarargs are None in every branch below).
+   Call shapes in THIS file have no * / ** splats at the call site (args.starargs / args.starstarargs are
+   None in every branch below); call sites with splats are modelled in coq/Bind/SplatModel.v (bind_py_star
+   is the mapper with those branches, SplatProofs.bind_py_star_plain: it coincides with bind_py_gen here).
    Names are numbers (the harness keeps the table).  This file contains definitions only (no
    proofs), so that it still evaluates when a proof breaks. *)
 From Coq Require Import List Arith Bool.
@@ -35,7 +36,12 @@ Inductive value :=
 | Kw (k : name)
 | Default
 | VarArgs (l : list nat)
-| KwArgs (l : list name).
+| KwArgs (l : list name)
+(* only produced for call sites with * / ** splats (coq/Bind/SplatModel.v) *)
+| AnyV                 (* ctx.new_unsolvable: the parameter was given up on *)
+| Elem (j : nat)       (* the element type of the indefinite splat at argument index j *)
+| StarV (j : nat)      (* *args receives the whole indefinite splat at argument index j *)
+| KwOpaque.            (* **kwargs receives the non-concrete ** dict of the call *)
 
 Inductive result (E : Type) :=
 | Ok (d : list (name * value))
